@@ -103,6 +103,18 @@ type cacheBad struct {
 	D time.Duration `ttlv:"0x540002"`
 }
 
+// cacheUserGated: a type of a USER of the codec with a default tag and a REQUIRED version-gated field. For the
+// library's own types the version cell of a decoder is unobservable (every gated field is optional), and their
+// header-less values travel under an explicit tag (new encoder / decoder in this engine): state carried from one
+// Marshal* / Unmarshal* call to the next (pooled encoders or decoders that keep their version cell) shows on a
+// type like this one. Registered under a tag of the extension range IN THE CHILD PROCESSES ONLY (init-time act).
+type cacheUserGated struct {
+	A int32 `ttlv:"0x540101"`
+	B int32 `ttlv:"0x540102,version=v1.4.."`
+}
+
+const cacheUserTag = 0x54F0F0
+
 var cacheFormats = []string{"ttlv", "xml", "json", "text"}
 
 func newCacheEncoder(f string) ttlv.Encoder {
@@ -300,6 +312,45 @@ func (c *cacheRunner) exec(st cacheStep) string {
 			return "bad-hex"
 		}
 		return cacheDecode(c.s, st.Fmt, c.msgs[st.Msg].tg, b)
+	case "uenc":
+		b, p := guard("user-encode", func() []byte {
+			v := &cacheUserGated{A: 7, B: 9}
+			switch st.Fmt {
+			case "xml":
+				return ttlv.MarshalXML(v)
+			case "json":
+				return ttlv.MarshalJSON(v)
+			case "text":
+				return ttlv.MarshalText(v)
+			}
+			return ttlv.MarshalTTLV(v)
+		})
+		if p != "" {
+			return "panic"
+		}
+		return "ok " + hexUp(b)
+	case "udec":
+		b, err := hex.DecodeString(st.Data)
+		if err != nil {
+			return "bad-hex"
+		}
+		var v cacheUserGated
+		err, p := guard("user-decode", func() error {
+			switch st.Fmt {
+			case "xml":
+				return ttlv.UnmarshalXML(b, &v)
+			case "json":
+				return ttlv.UnmarshalJSON(b, &v)
+			}
+			return ttlv.UnmarshalTTLV(b, &v)
+		})
+		switch {
+		case p != "":
+			return "panic"
+		case err != nil:
+			return "err"
+		}
+		return fmt.Sprintf("ok A=%d B=%d", v.A, v.B)
 	}
 	return "bad-op"
 }
@@ -310,6 +361,7 @@ func cacheChildMain() {
 		fmt.Fprintln(os.Stderr, "cache child: bad spec:", err)
 		os.Exit(3)
 	}
+	ttlv.RegisterTag("VerifUserGated", cacheUserTag, reflect.TypeFor[cacheUserGated]())
 	if spec.Fresh != nil {
 		b, _ := json.Marshal(cacheOut{Results: cacheFreshChild(*spec.Fresh)})
 		os.Stdout.Write(b)
@@ -952,6 +1004,80 @@ func (e *cacheEngine) reuseScenarios() {
 		w1, w0 := e.ref[cacheRefKey{"enc", f, 1, 0}], e.ref[cacheRefKey{"enc", f, 0, 0}]
 		if res.out[2] != w1 || res.out[3] != w0 {
 			e.violate("reuse", "cache:reuse-after-panic:"+f, fmt.Sprintf("after a recovered panic inside a structure, Clear()+encode on the %s encoder gives %s / %s instead of the fresh results", f, truncate(res.out[2], 40), truncate(res.out[3], 40)), line)
+		}
+	}
+}
+
+// userTypeScenarios: Marshal* / Unmarshal* of a user type with a required version-gated field, alone in a fresh
+// process and after whole messages of version 1.0 and 1.4 went through Marshal* / Unmarshal* in the same process.
+func (e *cacheEngine) userTypeScenarios() {
+	onlyA := (&tree.Item{Kind: tree.KStruct, Tag: cacheUserTag, Children: []*tree.Item{{Kind: tree.KInt, Tag: 0x540101, Int: 7}}}).Encode()
+	both := (&tree.Item{Kind: tree.KStruct, Tag: cacheUserTag, Children: []*tree.Item{{Kind: tree.KInt, Tag: 0x540101, Int: 7}, {Kind: tree.KInt, Tag: 0x540102, Int: 9}}}).Encode()
+	var calls []cacheStep
+	for _, f := range cacheFormats {
+		calls = append(calls, cacheStep{Op: "uenc", Fmt: f, Slot: -1})
+	}
+	calls = append(calls, cacheStep{Op: "udec", Fmt: "ttlv", Slot: -1, Data: hex.EncodeToString(onlyA), Var: 1},
+		cacheStep{Op: "udec", Fmt: "ttlv", Slot: -1, Data: hex.EncodeToString(both), Var: 2})
+	var refSpecs []cacheSpec
+	for _, c := range calls {
+		refSpecs = append(refSpecs, cacheSpec{Steps: []cacheStep{c}})
+	}
+	want := make([]string, len(calls))
+	for i, r := range cacheParallel(e.bin, refSpecs, 8) {
+		if e.childFailed(r, "user-type reference") {
+			return
+		}
+		want[i] = r.out[0]
+		e.ctx.Res.Count("cache.user-type.ref." + strings.SplitN(r.out[0], " ", 2)[0])
+	}
+	// the fresh answers this scenario relies on: a missing required field is an error, both fields are encoded
+	if want[len(cacheFormats)] != "err" || !strings.HasPrefix(want[0], "ok ") || want[len(cacheFormats)+1] != "ok A=7 B=9" {
+		e.ctx.Res.Fail(fmt.Sprintf("cache: the user-type scenario no longer discriminates (fresh: decode without the gated field = %s, with it = %s)", want[len(cacheFormats)], want[len(cacheFormats)+1]))
+	}
+	var specs []cacheSpec
+	var whats []string
+	for _, first := range []int{1, 0, 3, 2} { // 1.0 request, 1.4 request, 1.0 response, 1.4 response
+		if first >= len(e.specs) {
+			continue
+		}
+		for variant := 0; variant < 2; variant++ {
+			var steps []cacheStep
+			pre := e.allCalls(first)
+			if variant == 1 {
+				// only the Marshal* / Unmarshal* calls of the message, each followed at once by the user-type calls
+				for _, p := range pre {
+					steps = append(steps, p)
+					steps = append(steps, calls...)
+				}
+			} else {
+				steps = append(append(steps, pre...), calls...)
+			}
+			specs = append(specs, cacheSpec{Msgs: e.specs, Steps: steps})
+			whats = append(whats, fmt.Sprintf("user-type after msg=%d variant=%d", first, variant))
+		}
+	}
+	for i, res := range cacheParallel(e.bin, specs, 8) {
+		if e.childFailed(res, whats[i]) {
+			continue
+		}
+		for k, st := range specs[i].Steps {
+			if st.Op != "uenc" && st.Op != "udec" {
+				continue
+			}
+			ci := -1
+			for j, c := range calls {
+				if c.Op == st.Op && c.Fmt == st.Fmt && c.Var == st.Var {
+					ci = j
+				}
+			}
+			line := fmt.Sprintf("# cache.user-type %s step=%d %s.%s var=%d", whats[i], k, st.Op, st.Fmt, st.Var)
+			e.ctx.Add(line, res.out[k], true, "C20")
+			e.ctx.Res.Count("cache.user-type." + st.Op + "." + st.Fmt)
+			if ci >= 0 && res.out[k] != want[ci] {
+				e.violate("order", "cache:user-type-depends-on-history:"+st.Op+"."+st.Fmt,
+					fmt.Sprintf("%s: Marshal/Unmarshal of a user type with a required version-gated field differs from the fresh-process result (%s)", whats[i], firstDiff(want[ci], res.out[k])), line)
+			}
 		}
 	}
 }
@@ -2325,6 +2451,7 @@ func runCache(ctx *Ctx) {
 		}
 	}
 	e.orderScenarios()
+	e.userTypeScenarios()
 	e.reuseScenarios()
 	rr := <-raceCh
 	if rr.note != "" {
